@@ -190,6 +190,10 @@ def check_sinks(ctx, prog, eff, rule, fns, skip=()):
             b = bd.ev(cu)
             if esz is None:
                 esz = 1
-            ok = b.hi is not None and b.hi * esz <= cap and (b.lo is None or b.lo >= 0 or True)
-            ctx.ob(rule, key, ok, f.loc(c), '%s of %s x %d byte(s) into %s (%d bytes): count %s' % (what, f.s(cu), esz, desc, cap, 'bounded by %s' % b.hi if ok else 'NOT bounded (%r)' % b), None)
+            # a signed count that can be negative arrives at the primitive as a huge size_t: the upper bound alone proves nothing then
+            from .model import int_type as _it_s
+            ct_ = _it_s(cu.get('t'))
+            neg_ = bool(ct_) and ct_[1] and (b.lo is None or b.lo < 0) and not (ct_[0] <= 16)
+            ok = b.hi is not None and b.hi * esz <= cap and not neg_
+            ctx.ob(rule, key, ok, f.loc(c), '%s of %s x %d byte(s) into %s (%d bytes): count %s' % (what, f.s(cu), esz, desc, cap, 'bounded by %s' % b.hi if ok else ('NOT bounded (%r)' % b if not (b.hi is not None and b.hi * esz <= cap) else 'bounded above by %s but NOT proved non-negative (%r): a negative %s becomes a huge size_t' % (b.hi, b, cu.get('t')))), None)
     return n
